@@ -11,7 +11,7 @@ INC    := -I$(REPO) -I$(REPO)/src
 DEFS   := -DHAVE_CONFIG_H -DPPL_VERIF
 COMMON := -std=gnu++17 -w -frounding-math -MMD -MP $(DEFS) $(INC)
 ifeq ($(FL),asan)
-OPT    := -O1 -g -fsanitize=address,undefined -fno-sanitize-recover=undefined -fno-omit-frame-pointer
+OPT    := -O1 -g -fsanitize=address,undefined -fno-sanitize=nonnull-attribute -fno-sanitize-recover=undefined -fno-omit-frame-pointer
 LDSAN  := -fsanitize=address,undefined
 else
 OPT    := -O2 -g1 -fno-omit-frame-pointer
@@ -19,7 +19,7 @@ LDSAN  := -fsanitize=leak
 endif
 CXX    := g++
 KIT    := sim/kit
-HARNESSES := wd obj_poly
+HARNESSES := wd obj_poly rows
 
 all: lib $(addprefix $(B)/bin/,$(HARNESSES))
 
@@ -45,6 +45,11 @@ $(B)/k/%.o: sim/kit/%.cc
 $(B)/bin/wd: $(B)/h/wd.o $(B)/libppl.a
 	@mkdir -p $(dir $@)
 	$(CXX) $(OPT) -o $@ $(B)/h/wd.o $(B)/libppl.a -lgmpxx -lgmp $(if $(filter asan,$(FL)),$(LDSAN),)
+
+# plain harnesses without the allocator shim
+$(B)/bin/rows: $(B)/h/rows.o $(B)/libppl.a
+	@mkdir -p $(dir $@)
+	$(CXX) $(OPT) -o $@ $< $(B)/libppl.a -lgmpxx -lgmp $(if $(filter asan,$(FL)),$(LDSAN),)
 
 # obj family: allocator shim inside; LSan (plain) or ASan+LSan at link time
 $(B)/bin/obj_%: $(B)/h/obj_%.o $(B)/libppl.a
